@@ -11,7 +11,7 @@ import chython.periodictable as PT
 ID = 'C18'
 RULE = ('exhaustive: 118 elements x every tabulated isotope x charge -4..+4 x radical flag x H 0-6/unknown; per element '
         'the stated consistency relations are executed on the real accessors; pack/unpack and matcher encodings run on '
-        'the .pyx sources under pyxsan, isotope bits inside 46..62 and the observed four words of all states of an element pairwise distinct; a case = one (element, isotope|None, charge, radical, H) state, non-trivial = '
+        'the .pyx sources under pyxsan, isotope bits inside 46..62 and the observed four words of all states of an element pairwise distinct; the four words of one-atom queries accept the words of atoms (the .pyx atom test) exactly when the reference comparison does, over isotope x charge x radical on both sides; query and dynamic variants report the element's symbol; a case = one (element, isotope|None, charge, radical, H) state, non-trivial = '
         'isotope set or charge != 0 or radical, distinct by that tuple')
 ASSUMPTIONS = ['CachedMethods compatibility shim', 'embedded IUPAC symbol table cross-checked with RDKit',
                'pack/unpack/matcher clauses observe the .pyx source semantics under pyxsan, not a compiled binary']
@@ -19,10 +19,10 @@ CONFIG = {
     'quick': {'shards': 16, 'budget_s': 300, 'exhaustive': True,
               'exhaustive_subspaces': ['118 elements x tabulated isotopes x charge x radical x H count (pack round trip '
                                        'samples H and radical per isotope/charge in quick; full product in thorough)'],
-              'floors': {'elements': 118, 'isotopes': 300, 'pack.roundtrips': 3000, 'matcher.encodings': 1000}},
+              'floors': {'elements': 118, 'isotopes': 300, 'pack.roundtrips': 3000, 'matcher.encodings': 1000, 'matcher.query-encodings': 10000, 'variants.symbols-compared': 236}},
     'thorough': {'shards': 16, 'budget_s': 1500, 'exhaustive': True,
                  'exhaustive_subspaces': ['118 elements x tabulated isotopes x charge -4..+4 x radical x H 0-6/None'],
-                 'floors': {'elements': 118, 'isotopes': 300, 'pack.roundtrips': 70000, 'matcher.encodings': 1000}},
+                 'floors': {'elements': 118, 'isotopes': 300, 'pack.roundtrips': 70000, 'matcher.encodings': 1000, 'matcher.query-encodings': 10000, 'variants.symbols-compared': 236}},
 }
 
 SYMBOLS = ('H He Li Be B C N O F Ne Na Mg Al Si P S Cl Ar K Ca Sc Ti V Cr Mn Fe Co Ni Cu Zn Ga Ge As Se Br Kr Rb Sr Y Zr '
@@ -138,10 +138,18 @@ def check_element(ctx, z, sym, rd_pt, tables):
                     V('query-variant-number-differs', '%s: %r' % (sym, qi.atomic_number), w)
                 if qi.mdl_isotope != a.mdl_isotope:
                     V('query-variant-mdl-isotope-differs', sym, w)
+                vi = qi
             else:
                 di = q.from_atom(a) if hasattr(q, 'from_atom') else None
                 if di is not None and di.atomic_number != z:
                     V('dynamic-variant-number-differs', '%s: %r' % (sym, di.atomic_number), w)
+                vi = di
+            if vi is not None:
+                ctx.count('variants.symbols-compared')
+                if vi.atomic_symbol != sym:
+                    V('%s-variant-symbol-differs' % pref.lower(), '%s: instance of %s reports symbol %r' % (sym, q.__name__, vi.atomic_symbol), w)
+                elif base.from_symbol(vi.atomic_symbol) is not q:
+                    V('%s-variant-lookups-not-inverse' % pref.lower(), '%s through the symbol of an instance' % sym, w)
             if getattr(PT, pref + sym, None) is not q:
                 V('%s-variant-not-exported' % pref.lower(), sym, w)
         except Exception as e:
@@ -244,6 +252,57 @@ def matcher_states(ctx, cls, sym, z):
                 ctx.violation('matcher-element-bit-count', '%s: %d element bits' % (sym, eb), {'element': sym})
 
 
+def _accepts(qw, mw):
+    """the atom test of _isomorphism.pyx on (mask1..4) x (bits1..4)"""
+    return bool(qw[0] & mw[0]) and qw[1] & mw[1] == mw[1] and qw[2] & mw[2] == mw[2] and bool(qw[3] & mw[3])
+
+
+def matcher_query_states(ctx, cls, sym, z):
+    """query side of the layout: the words of a one-atom query in state (isotope | any, charge, radical) accept the words of a
+    molecule atom exactly when the reference comparison (query atom == atom) does - for the same state and for states that
+    differ in one field"""
+    import struct
+    from chython import QueryContainer
+    a0 = cls()
+    qcls = QueryElement.from_atomic_number(z)
+    isos = sorted(a0.isotopes_distribution)
+    pick = [None] + sorted({isos[0], isos[-1], isos[len(isos) // 2]} | ({a0.mdl_isotope} if a0.mdl_isotope in isos else set()))
+    mstates = [(i, c, r) for i in pick for c in (-4, 0, 1, 4) for r in (False, True)]
+    mwords = {}
+    for st in mstates:
+        m = MoleculeContainer()
+        m.add_atom(cls(st[0], charge=st[1], is_radical=st[2]), 1, _skip_calculation=True)
+        m._changed = None
+        m.calc_labels()
+        m._atoms[1]._implicit_hydrogens = 0
+        try:
+            mwords[st] = (struct.unpack_from('QQQQ', m._cython_compiled_structure, 4), m._atoms[1])
+        except Exception as e:
+            ctx.violation('matcher-encoding-raises/%s' % type(e).__name__, '%s state %r: %r' % (sym, st, e), {'element': sym})
+            return
+    for qs in mstates:
+        q = QueryContainer('x')
+        try:
+            q.add_atom(qcls(qs[0], charge=qs[1], is_radical=qs[2]), 1)
+            qw = struct.unpack_from('QQQQ', q._cython_compiled_query[0], 4)
+        except Exception as e:
+            ctx.violation('matcher-query-encoding-raises/%s' % type(e).__name__, '%s query state %r: %r' % (sym, qs, e), {'element': sym})
+            return
+        qa = q._atoms[1]
+        for ms, (mw, ma) in mwords.items():
+            if sum(x != y for x, y in zip(qs, ms)) > 1:
+                continue
+            ctx.count('matcher.query-encodings')
+            ctx.evaluations += 1
+            want = qa == ma
+            got = _accepts(qw, mw)
+            if want != got:
+                ctx.violation('matcher-query-words-%s' % ('reject-the-same-state' if want else 'accept-another-state'),
+                              '%s: query (isotope %r, charge %+d, radical %r) vs atom (isotope %r, charge %+d, radical %r): words %s, reference comparison %s'
+                              % ((sym,) + qs + ms + ('accept' if got else 'reject', 'accepts' if want else 'rejects')), {'element': sym, 'isotope': qs[0], 'charge': qs[1]})
+                return
+
+
 def worker(ctx):
     full = ctx.tier == 'thorough'
     try:
@@ -262,6 +321,7 @@ def worker(ctx):
             continue
         pack_states(ctx, cls, sym, z, full)
         matcher_states(ctx, cls, sym, z)
+        matcher_query_states(ctx, cls, sym, z)
     if ctx.shard == 0:
         # global relations
         subs = {c.__name__ for c in Element.__subclasses__()}
